@@ -19,7 +19,7 @@
     order and how often is modelled by hand and tied by the differential only; the result mapping is proved for the client half
     (C03_returns) and for errors (C03_errno_...). *)
 From Coq Require Import ZArith NArith String List Bool.
-From P9V Require Import gen.ConstGen gen.ClientGen Client.Chunk Client.ClientModel Client.ClientProofs Client.ChunkProofs Client.Errs Client.Composed Client.HandlerTie gen.ResultGen Client.Results.
+From P9V Require Import gen.ConstGen gen.ClientGen Client.Chunk Client.ClientModel Client.ClientProofs Client.ChunkProofs Client.Errs Client.Composed Client.HandlerTie gen.ResultGen Client.Results Client.PathSeq Client.PathSeqTie Client.PathSeqTieProofs.
 Import ListNotations.
 Open Scope string_scope.
 
@@ -88,6 +88,26 @@ Theorem C03_errno_cases : forall n p,
   extract (Join [OsPermission; Wrap (SysErrno (Npos p))]) = Npos p /\
   extract (Wrap (Join [Opaque; OsExist; LinuxErrno n])) = n.
 Proof. intros n p. repeat split. Qed.
+
+(** ... and through any TREE of wrapped errors (errors.Join, fmt.Errorf with several %w, nested to any depth):
+    ExtractErrno is a function of the depth-first sequence of leaves, so no way of wrapping or joining hides an errno;
+    the first linux.Errno leaf is the answer *)
+Theorem C03_errno_trees : forall e, extract e = extract_leaves (leaves e).
+Proof. exact extract_by_leaves. Qed.
+Print Assumptions C03_errno_trees.
+
+Theorem C03_errno_first_linux_leaf : forall e n, first_some is_linux (leaves e) = Some n -> extract e = n.
+Proof. exact extract_first_linux_leaf. Qed.
+
+(** a failing backend Close reaches newErr as errors.Join(fmt.Errorf("file: %w", err)) (fidRef.DecRef): same errno;
+    a walker following only Unwrap() error (errors.Unwrap) loses it — the witness of seeded change C03-m4 *)
+Theorem C03_errno_close : forall e, extract (server_close_error e) = extract e.
+Proof. exact extract_close_error. Qed.
+
+Theorem C03_errno_single_chain_refuted :
+  find_single is_linux (server_close_error (LinuxErrno 122)) = None /\ extract (server_close_error (LinuxErrno 122)) = 122%N /\
+  find_single is_linux (Wrap (Join [Opaque; LinuxErrno 30])) = None /\ extract (Wrap (Join [Opaque; LinuxErrno 30])) = 30%N.
+Proof. exact single_chain_walker_refuted. Qed.
 
 (** BY DEFINITION of the model ([client_error n := LinuxErrno n] restates sendRecv's `linux.Errno(rlerr.Error)`; newErr,
     the Rlerror codec and sendRecv are not derived from the source): errno in, same errno out.  Tested, not tied:
@@ -222,3 +242,55 @@ Theorem C03_no_value_replies :
   forallb (fun t => match reply_entry t with [("type", _)] => true | _ => false end)
           ["tfsync"; "tlink"; "trename"; "trenameat"; "tsetattr"; "tunlinkat"; "tremove"; "tclunk"] = true.
 Proof. exact no_value_replies. Qed.
+
+(** ---- sequences through several handles: the operation still reaches the File after renames ---- *)
+
+(** the same-entry short-circuit of Trenameat / Trename compares PATH NODES (and names), as read from handlers.go:
+    operands are the path nodes of the two looked-up directory references (Trename: of the entry's parent), the
+    names are the message's two names (Trename: the entry's current name read under the rename lock) *)
+Theorem C03_rename_guard_by_node :
+  rename_guard "trenameat.handle" "_v3" "_v5" = Some true /\ rename_guard "trename.handle" "_v3.parent" "_v5" = Some true /\
+  bynode_of_source = true.
+Proof. destruct rename_guard_generated as (_ & A & _ & B & _). repeat split; auto. Qed.
+
+(** in every state of the path-tree model, for ANY two handles d, d' of one directory (same path node): renaming an
+    entry onto its own name is a no-op — no backend call, state unchanged, success — and an operation through a
+    handle f of any live entry then reaches f's File with its arguments *)
+Theorem C03_rename_same_entry : forall st d d' rd rt name f rf m args,
+  nth_error (ps_refs st) d = Some rd -> nth_error (ps_refs st) d' = Some rt ->
+  pr_node rd = pr_node rt -> node_deleted st (pr_node rd) = false ->
+  nth_error (ps_refs st) f = Some rf -> node_deleted st (pr_node rf) = false ->
+  pstep true st (SRenameAt d name d' name) = (st, [], None) /\
+  prun true st [SRenameAt d name d' name; SProbe f m args] = [([], None); ([mkbc m (OnFid (pr_fid rf)) args], None)].
+Proof.
+  intros. split; [eapply renameat_same_entry_noop; eauto|eapply probe_after_same_entry_rename; eauto].
+Qed.
+Print Assumptions C03_rename_same_entry.
+
+Theorem C03_rename_same_entry_via_file : forall st f d' rf rt pi rp,
+  nth_error (ps_refs st) f = Some rf -> nth_error (ps_refs st) d' = Some rt ->
+  pr_parent rf = Some pi -> nth_error (ps_refs st) pi = Some rp ->
+  pr_node rp = pr_node rt -> node_deleted st (pr_node rf) = false -> node_deleted st (pr_node rt) = false ->
+  pstep true st (SRename f d' (node_name st (pr_node rf))) = (st, [], None).
+Proof. exact rename_same_entry_noop. Qed.
+
+(** a Trenameat, carried out or not, never deletes the entry it names (so handles of it keep reaching their File),
+    unless the origin directory lies inside the entry being replaced.  _partial: stated for Trenameat; the same for
+    Trename and the re-registration of the moved references under the new parent are covered by the differential
+    (CSeq cases) only *)
+Theorem C03_rename_keeps_entry_partial : forall st d old d' new rd rt c x st' calls err,
+  nth_error (ps_refs st) d = Some rd -> nth_error (ps_refs st) d' = Some rt ->
+  child (ps_nodes st) (pr_node rd) old = Some c -> nth_error (ps_nodes st) c = Some x -> pn_del x = false ->
+  (forall v k, child (ps_nodes st) (pr_node rt) new = Some v -> under k (ps_nodes st) (pr_node rd) v = false) ->
+  pstep true st (SRenameAt d old d' new) = (st', calls, err) -> node_deleted st' c = false.
+Proof. exact renameat_keeps_entry. Qed.
+Print Assumptions C03_rename_keeps_entry_partial.
+
+(** with the directories compared by HANDLE the rename onto the own name through a second handle deletes the entry:
+    the next operation through its handle is refused with EINVAL and never reaches the File (seeded change C03-m3) *)
+Theorem C03_rename_handle_identity_refuted :
+  prun false ex_state [SRenameAt 1 "a" 2 "a"; SProbe 3 "SetAttr" []] =
+    [([mkbc "RenameAt" (OnFid 2) [VS "a"; VFile 3; VS "a"]], None); ([], Some linux_EINVAL)] /\
+  prun true ex_state [SRenameAt 1 "a" 2 "a"; SProbe 3 "SetAttr" []] =
+    [([], None); ([mkbc "SetAttr" (OnFid 4) []], None)].
+Proof. destruct handle_identity_refuted as (A & B & _). split; assumption. Qed.
